@@ -15,7 +15,7 @@ Requests (vec = `len h1 … hlen`, ints = `len i1 … ilen`, mat = `r c vec`):
   mbwd mat vec | mdet mat | mlu_det mat ints | mis_upper mat | mis_lower mat | mdiag mat | mis_sym mat |
   mis_pd mat
 Composite (blocks `P` or vec per entry point): entries vec vec | inverses vec | routes vec vec |
-  both_lu vec | lu_pair vec vec | both_chol vec | both_tri fwd|bwd|chol_solve vec vec | both_lu_solve vec ints vec
+  both_lu vec | lu_pair vec vec | both_chol vec | chol_pair vec vec | both_tri fwd|bwd|chol_solve vec vec | both_lu_solve vec ints vec
 Replies: vec, `vec ints` (lu), mat, `mat ints` (mlu), a float, `0|1`, `1|-1`, or `! panic`.
 -/
 open Cv Cv.LA
@@ -91,6 +91,8 @@ def composite (args : List String) : Option String :=
       joinB (luBlocks a ++ luBlocks b)
   | "both_chol" :: rest => some <| withArgs pVec rest fun a =>
       joinB [blk (cholesky a), blkM (do let m ← sq a; M.cholesky m)]
+  | "chol_pair" :: rest => some <| withArgs (do let a ← pVec; let b ← pVec; pure (a, b)) rest fun (a, b) =>
+      joinB [blk (cholesky a), blkM (do let m ← sq a; M.cholesky m), blk (cholesky b), blkM (do let m ← sq b; M.cholesky m)]
   | "both_tri" :: kind :: rest => some <| withArgs (do let a ← pVec; let b ← pVec; pure (a, b)) rest fun (a, b) =>
       match kind with
       | "fwd" => joinB [blk (forwardSubstitution a b), blk (do let m ← sq a; M.forwardSubstitution m b)]
